@@ -135,6 +135,16 @@ def judge_lines(cases, out_i):
             o1 = o[:-2] if op == "urlencode_sb" and o.endswith(" 1") else o
             if re.fullmatch(r"[0-9a-f]+|-", o1):
                 res.append((k, f"J {base} {w[1]} {o1}", None))
+                if base == "b64enc":
+                    # independent reference: Python's RFC 4648 section 5 decoder must invert every encoder path
+                    import base64 as _b64
+                    txt = unhex(o1)
+                    try:
+                        ok = len(txt) % 4 != 1 and _b64.urlsafe_b64decode(txt + b"=" * (-len(txt) % 4)) == unhex(w[1])
+                    except Exception:
+                        ok = False
+                    if not ok:
+                        res.append((k, None, False))
             else:
                 res.append((k, None, False))
         elif op == "urlrt":
